@@ -11,6 +11,7 @@ CONSTANTS Producers, K, Shapes, MaxFaults, MaxCrashes, InlineAt, Interval, MBs,
           FixMonotone,   \* store update is skipped when it would lower the watermark (serialised)
           FixReadOrder,  \* Read consults the flush window (older) before the live buffer
           FixRange,      \* when the index entry is below the offset, the range extends to the end of that index block
+          FixIndexSearch,\* findIndexEntry returns the last entry at or below the offset (FALSE: the pinned binary search, which falls through to entries[0])
           FixValidate,   \* malformed headers (negative last-offset-delta, trailing batches) are rejected
           DevNoWait,             \* Flush does not wait for the in-flight flush
           DevCommitBeforeIndex,  \* segment registered in memory before the index upload finished
@@ -214,8 +215,25 @@ IdxFrom(bs, i, since, acc) ==
 IdxSet(bs) == IdxFrom(bs, 1, 0, {})
 MinOf(S) == CHOOSE m \in S : \A x \in S : m <= x
 MaxOf(S) == CHOOSE m \in S : \A x \in S : m >= x
-EntryFor(bs, off) == LET I == IdxSet(bs)  le == {i \in I : bs[i].base <= off}
-                     IN IF le = {} THEN MinOf(I) ELSE MaxOf(le)
+\* findIndexEntry as written in the pinned tree (0-based lo/hi/mid kept; es is 1-based): the loop narrows hi and then tests
+\* `mid+1 <= hi` against the narrowed bound, so it can run off the end and return entries[0] although a later entry is <= offset
+RECURSIVE BSearch(_, _, _, _)
+BSearch(es, off, lo, hi) ==
+  IF lo > hi THEN 1
+  ELSE LET mid == (lo + hi) \div 2 IN
+       IF es[mid + 1] = off THEN mid + 1
+       ELSE IF es[mid + 1] < off
+            THEN IF mid + 1 <= hi /\ es[mid + 2] > off THEN mid + 1 ELSE BSearch(es, off, mid + 1, hi)
+            ELSE BSearch(es, off, lo, mid - 1)
+RECURSIVE SortedSeq(_)
+SortedSeq(S) == IF S = {} THEN <<>> ELSE <<MinOf(S)>> \o SortedSeq(S \ {MinOf(S)})
+EntryPick(bs, I, off) ==
+  IF FixIndexSearch
+  THEN LET le == {i \in I : bs[i].base <= off} IN IF le = {} THEN MinOf(I) ELSE MaxOf(le)
+  ELSE LET is == SortedSeq(I)
+           es == [k \in 1..Len(is) |-> bs[is[k]].base]
+           n == Len(es)
+       IN IF off <= es[1] THEN is[1] ELSE IF off >= es[n] THEN is[n] ELSE is[BSearch(es, off, 0, n - 1)]
 \* positions of all batches (and of the end of the body) computed once per segment
 RECURSIVE PosSeqFrom(_, _, _)
 PosSeqFrom(bs, i, at) == IF i > Len(bs) THEN <<at>> ELSE <<at>> \o PosSeqFrom(bs, i + 1, at + bs[i].sz)
@@ -223,8 +241,7 @@ PosSeq(bs) == PosSeqFrom(bs, 1, Hd)
 SegRange(bs, nb, off, mb) ==
   LET I == IdxSet(SubSeq(bs, 1, IF nb < Len(bs) THEN nb ELSE Len(bs)))   \* the index object may cover only a prefix (retried flush + crash)
       ps == PosSeq(bs)
-      le == {i \in I : bs[i].base <= off}
-      i == IF le = {} THEN MinOf(I) ELSE MaxOf(le)
+      i == EntryPick(bs, I, off)
       start == ps[i]
       lim == ps[Len(bs) + 1]
       e1 == IF mb > 0 /\ start + mb - 1 < lim - 1 THEN start + mb - 1 ELSE lim - 1
